@@ -209,7 +209,7 @@ type Options struct {
 }
 
 var (
-	pkgPool      = []string{"a", "b", "x.y", "z"}
+	pkgPool      = []string{"a", "b", "x.y", "z", "ads.target.web", "tools.build"}
 	collidePkgs  = []string{"p", "pq", "qr", "r", "p.q", "pq.r"}
 	classPool    = []string{"Alpha", "Beta", "Gamma", "Delta", "Helper", "Repo", "Shape", "Other", "Svc", "Item", "Store", "Util", "OrderService", "UserService"}
 	fieldNames   = []string{"repo", "svc", "helper", "item", "store", "shape"}
@@ -536,6 +536,11 @@ func (g *gctx) genFile(fi int) *JFile {
 				} else {
 					fl.Type = typ + "<" + inner + ">"
 				}
+			}
+			if t.Bool(1, 5) && !strings.Contains(fl.Type, "<") && strings.ToUpper(fl.Type[:1]) == fl.Type[:1] && fl.Type != "String" {
+				fl.Init = "new " + fl.Type + "()" // an initialiser: a creation outside any method
+			} else if t.Bool(1, 8) {
+				fl.Init = g.pick(classPool) + "." + g.pick(methodNames) + "()" // a call outside any method
 			}
 			fieldTypes[name] = fl.Type
 			f.Fields = append(f.Fields, fl)
